@@ -2,12 +2,19 @@
 import os, re, subprocess, time, shutil, json, concurrent.futures as cf
 from .common import VERIF, BUILD, REPO, env_offline, Inconclusive
 
-KDIR = os.path.join(VERIF, 'kani')
+from .common import harness_crate
+_KD = {}
+
+
+def kdir():
+    if 'd' not in _KD:
+        _KD['d'] = harness_crate('kani')
+    return _KD['d']
 
 
 def _prepare():
     # the lock file follows /repo's (path deps are resolved against it)
-    shutil.copyfile(os.path.join(REPO, 'Cargo.lock'), os.path.join(KDIR, 'Cargo.lock'))
+    shutil.copyfile(os.path.join(REPO, 'Cargo.lock'), os.path.join(kdir(), 'Cargo.lock'))
 
 
 def parse_output(text):
@@ -55,7 +62,7 @@ def run_group(harnesses, tag, timeout_s=600, mem_gb=12, extra_args=()):
     log = os.path.join(BUILD, f'kani-{tag}.log')
     with open(log, 'w') as lf:
         try:
-            p = subprocess.run(['bash', '-c', shell], cwd=KDIR, env=env_offline(), stdout=lf, stderr=subprocess.STDOUT,
+            p = subprocess.run(['bash', '-c', shell], cwd=kdir(), env=env_offline(), stdout=lf, stderr=subprocess.STDOUT,
                                timeout=timeout_s)
             rc = p.returncode
         except subprocess.TimeoutExpired:
@@ -77,6 +84,7 @@ def run_group(harnesses, tag, timeout_s=600, mem_gb=12, extra_args=()):
 def run_parallel(groups, timeout_s=600, mem_gb=12, workers=8):
     """groups: {tag: [harness,...]} -> merged results"""
     out = {}
+    _prepare()
     with cf.ThreadPoolExecutor(max_workers=workers) as ex:
         futs = {ex.submit(run_group, hs, tag, timeout_s, mem_gb): tag for tag, hs in groups.items()}
         for f in cf.as_completed(futs):
@@ -112,7 +120,7 @@ def playback(harness, timeout_s=900):
     import tempfile
     scratch = os.path.join(BUILD, 'playback-' + harness)
     shutil.rmtree(scratch, ignore_errors=True)
-    shutil.copytree(KDIR, scratch, ignore=shutil.ignore_patterns('target'))
+    shutil.copytree(kdir(), scratch, ignore=shutil.ignore_patterns('target'))
     tdir = os.path.join(scratch, 'target')
     cmd = ['cargo', 'kani', '--harness', harness, '-Z', 'concrete-playback', '--concrete-playback=inplace',
            '--output-format', 'terse']
